@@ -1,5 +1,5 @@
 """C13 — recorded artifacts are exactly the files present, with correct digests."""
-import os, sys, json
+import os, sys, json, resource
 sys.path.insert(0, os.path.join(os.path.dirname(os.path.abspath(__file__)), '..', 'lib'))
 import vcommon as V
 
@@ -31,6 +31,24 @@ EXPLANATION = (
     "disk, real library vs model (vm_compute) vs an independent oracle written from the property text.")
 
 
+# The model's normalisation and rendering are structurally recursive over the file bytes; evaluating them with
+# vm_compute on files of several hundred KiB needs a deep system stack in the coqc child processes.
+def _deep_stack():
+    try:
+        soft, hard = resource.getrlimit(resource.RLIMIT_STACK)
+        if soft == resource.RLIM_INFINITY:
+            return True
+        if hard == resource.RLIM_INFINITY or hard >= (1 << 30):
+            resource.setrlimit(resource.RLIMIT_STACK, (hard, hard))
+            return True
+    except Exception:
+        pass
+    return False
+
+
+DEEP_STACK = _deep_stack()
+
+
 def _gen(ctx, n, name='cases.jsonl'):
     binp = ctx.go_build('c13')
     out = os.path.join(ctx.dir, name)
@@ -43,13 +61,28 @@ def _gen(ctx, n, name='cases.jsonl'):
 def correspondence(ctx):
     n = 320 if ctx.tier == 'quick' else 4000
     out = _gen(ctx, n)
+    model_skipped = 0
+    if not DEEP_STACK:
+        # without a deep stack the large-file cases are compared with the oracle only
+        lines = []
+        for l in open(out):
+            if l.strip():
+                c = json.loads(l)
+                if c.get('input', {}).get('big'):
+                    c.pop('coq_model', None)
+                    model_skipped += 1
+                lines.append(json.dumps(c))
+        open(out, 'w').write('\n'.join(lines) + '\n')
     corr = V.evaluate_case_file(ctx, out, ['model.Record'])
+    corr.extra['bigfile_model_skipped'] = model_skipped
     abst = sum(1 for l in open(out) if l.strip() and not json.loads(l).get('oracle'))
     corr.extra['oracle_abstained'] = abst
     corr.rule = (
         "random directory trees (depth <= 4, <= 18 nodes: empty/binary files, CR/LF/CRLF mixes, file and directory symlinks, "
         "chains, self loops, dangling links, links to ancestors, odd target spellings, unreadable files under a dropped euid), "
-        "the F11/F12 shapes of DESIGN section 6, link chains of 255/257, with paths (., subsets of the top entries, inner "
+        "the F11/F12 shapes of DESIGN section 6, link chains of 255/257, large files (512 B - 300 KiB, sizes n-1/n/n+1 around powers "
+        "of two, CR/LF/CRLF runs written exactly at and around offsets k*4096-1, k*32768-1, k*65536-1 and at the end, described "
+        "to the model as repeat/literal segments and compared through a length+40-bit-hash tag), with paths (., subsets of the top entries, inner "
         "locations, overlapping, missing, none), algorithm lists (subsets/orders of sha256/384/512, duplicates, empty, unknown "
         "names), exclude patterns, strip prefixes, both switches; InTotoRun with a helper command that writes/deletes files, "
         "InTotoRecordStart/Stop around the same operations, InTotoMatchProducts against disturbed product maps. "
